@@ -440,8 +440,27 @@ class Interp:
                 return (fn.qual, k)
         return None
 
+    def typed_loop_keys(self, st):
+        """(qualname, 'for'|'while', k) with k the ordinal among the function's loops of that kind, and k = -1 for the last"""
+        fn = self.fn_stack[-1] if self.fn_stack else None
+        if fn is None:
+            return []
+        kind = "for" if isinstance(st, ast.For) else "while"
+        loops = [n for n in ast.walk(fn.node) if isinstance(n, ast.For if kind == "for" else ast.While)]
+        loops.sort(key=lambda n: (n.lineno, n.col_offset))
+        out = []
+        for k, n in enumerate(loops):
+            if n is st:
+                out.append((fn.qual, kind, k))
+                if k == len(loops) - 1:
+                    out.append((fn.qual, kind, -1))
+        return out
+
     def st_For(self, st, env, in_class):
         key = self.loop_key(st)
+        for tk in self.typed_loop_keys(st):
+            if tk in self.invariants:
+                return self.invariants[tk].run_for(self, st, env, in_class)
         if key in self.invariants:
             return self.invariants[key].run_for(self, st, env, in_class)
         it = self.eval(st.iter, env)
@@ -461,6 +480,9 @@ class Interp:
 
     def st_While(self, st, env, in_class):
         key = self.loop_key(st)
+        for tk in self.typed_loop_keys(st):
+            if tk in self.invariants:
+                return self.invariants[tk].run_while(self, st, env, in_class)
         if key in self.invariants:
             return self.invariants[key].run_while(self, st, env, in_class)
         n = 0
